@@ -17,7 +17,7 @@ RULE = ("random + directed Wishbone B4 traffic (classic, constant, incrementing-
         "behaviours incl. aborts at every cycle) and D_WbEq against the same R_WbMem operators; the models are bound to the "
         "code by per-cycle lock-step traces.")
 ASSUMPTIONS = [
-    "Wishbone master obeys B4: STB only with CYC, request stable until ACK, CTI=010 is followed by address+1 in the same direction unless CYC is negated; an abort negates CYC and STB together for >= 1 cycle",
+    "Wishbone master obeys B4: STB only with CYC, request stable until ACK; CTI is a per-access hint (any address / direction / CTI may follow a CTI=010 beat, also inside a held cycle); an abort negates CYC and STB together for >= 1 cycle",
     "native side = ideal memory with the crossbar's pulse semantics (one wdata.ready / rdata.valid strobe per command, >= 3 cycles after the accept, regardless of valid/ready)",
     "an access not acknowledged within `bound` (1500; 300 in the abort family) cycles counts as never acknowledged",
     "an aborted write may take effect per byte; once a read has shown a byte's value the other alternative is gone",
@@ -79,6 +79,11 @@ def scenarios(tier, seed):
         for i, (w, p) in enumerate(wid):
             out.append(_sc("wide-%d-%d-p%d" % (w, p, pi), w, p, s + 40 + i + 100 * pi, base=BASES[(i + 2 + pi) % 4], p_abort_w=0.0,
                            p_abort_r=0.12, runs=2 if q else 4, nops=160, **prof))
+    # ---- family "mixed": long held cycles mixing reads and writes with an arbitrary CTI per access (merge buffer vs. read cache)
+    for i, (w, p) in enumerate([(32, 128), (8, 16), (8, 32), (32, 32), (64, 32)] if q else [(32, 128), (8, 16), (8, 32), (16, 64), (32, 64), (8, 64), (32, 32), (64, 32), (32, 8)]):
+        path = busmem.wb_path(dict(wbw=w, pw=p))
+        out.append(_sc("mixed-%d-%d" % (w, p), w, p, s + 140 + i, base=BASES[i % 4], mixed=True, runs=3 if q else 8, nops=250,
+                       p_abort_w=0.03 if path == "narrow" else 0.0, p_abort_r=0.03))
     # ---- directed abort sweeps: every offset 1..14 of reads on all paths and of writes on the narrow path
     offs = list(range(1, 15))
     for (w, p) in [(8, 32), (32, 32), (64, 32)] + ([] if q else [(32, 64), (8, 8), (32, 8)]):
@@ -130,8 +135,8 @@ def models(tier, seed):
              label="D_WbEq equal path, code as read: TLC exhibits the aborted-write defect (expected violation)"),
         dict(module="MC_Wb2Native", cfg="MC_Wb2Native_neg_stale.cfg", workers=4, timeout=1500, expect_violation=True,
              label="negative control: read cache not invalidated by a write"),
-        dict(module="MC_Wb2Native", cfg="MC_Wb2Native_neg_ackwm.cfg", workers=2, timeout=1500, expect_violation=True,
-             label="negative control: unmergeable write acknowledged (lost)"),
+        dict(module="MC_Wb2Native", cfg="MC_Wb2Native_neg_c10c.cfg", workers=3, timeout=1500, expect_violation=True,
+             label="negative control: read cache invalidated only by a write that flushes (seeded C10-c)"),
         dict(module="MC_Wb2Native", cfg="MC_Wb2Native_cover.cfg", workers=2, timeout=1500, expect_violation=True,
              extra=("-simulate", "num=4000", "-depth", "400"),
              label="vacuity guard (narrow): cache hit, aborted read, merge, both flush causes, burst are reachable in one behaviour"),
@@ -141,6 +146,12 @@ def models(tier, seed):
     ]
     if not q:
         ms += [
+            dict(module="MC_Wb2Native", cfg="MC_Wb2Native_neg_ackwm.cfg", workers=2, timeout=1500, expect_violation=True,
+                 label="negative control: unmergeable write acknowledged (lost)"),
+            dict(module="MC_Wb2Native", cfg="MC_Wb2Native_neg_merge.cfg", workers=2, timeout=1500, expect_violation=True,
+                 label="negative control: merge into an occupied lane"),
+            dict(module="MC_Wb2Native", cfg="MC_Wb2Native_neg_bypass.cfg", workers=2, timeout=1500, expect_violation=True,
+                 label="negative control: read overtakes a parked write"),
             dict(module="MC_Wb2Native", cfg="MC_Wb2Native_neg_lane.cfg", workers=2, timeout=900, expect_violation=True,
                  label="negative control: cache hit returns the wrong lane"),
             dict(module="MC_Wb2Native", cfg="MC_Wb2Native_thorough2.cfg", workers=8, timeout=3000,
